@@ -227,6 +227,20 @@ func evalC20(c *core.Ctx, cs c20Case, id string) Outcome {
 	for i, op := range cs.Ops {
 		hist = append(hist, strings.TrimSpace(fmt.Sprintf("%s %s %s", op.Kind, op.Arg, op.DryRun)))
 		switch op.Kind {
+		case "dirty":
+			out.Tags = append(out.Tags, "fault:dirty-"+op.Arg)
+		case "tag":
+			out.Tags = append(out.Tags, "fault:foreign-tag-"+c20VersionClass(op.Arg)+tern(op.Annot, "-annotated", "-lightweight"))
+		case "version":
+			if !parseSemver(op.Arg).ok {
+				out.Tags = append(out.Tags, "fault:invalid-requested-version")
+			}
+		case "pack":
+			out.Tags = append(out.Tags, "fault:refs-packed")
+		case "branch":
+			out.Tags = append(out.Tags, "fault:branch-named-like-tag")
+		}
+		switch op.Kind {
 		case "commit":
 			commits++
 			g.t++
